@@ -76,7 +76,8 @@ class World(BaseWorld):
                 ops.append({'op': k, 'a': round(ro.uniform(-3, 3), 3), 'b': round(ro.uniform(-3, 3), 3), 'dir': ro.choice(['f', 'r'])})
             elif k == 'ma':
                 ops.append({'op': k, 'rank': ro.randrange(1, 5), 'space': ro.choice(['Real', 'Fourier']),
-                            'seq': [ro.choice('fr') for _ in range(ro.randrange(1, 4))]})
+                            'seq': [ro.choice('fr') for _ in range(ro.randrange(1, 4))],
+                            'layout': ro.choice(['C', 'C', 'C', 'F', 'T', 'block'])})
             elif k == 'matrix':
                 ops.append({'op': k})
         return {'config': {}, 'ops': ops}
@@ -235,7 +236,22 @@ class World(BaseWorld):
                 data = rs.uniform(-1, 1, size=(N, rk, rk))
                 data = (data + np.transpose(data, (0, 2, 1))) / 2.0
                 types = list('ABCD'[:rk])
-                M = lib('MatrixArray()', pp.MatrixArray, length=N, rank=rk, data=np.copy(data), space=getattr(pp.Space, op['space']), types=types)
+                # the user's data array may have any memory layout: C order, Fortran order, a (rank, rank, length) stack viewed
+                # transposed, a sub-block of a larger array -- all are legal ndarray inputs with the same values
+                lay = op.get('layout', 'C')
+                if lay == 'F':
+                    udata = np.asfortranarray(data)
+                elif lay == 'T':
+                    udata = np.ascontiguousarray(np.transpose(data, (2, 1, 0))).T
+                elif lay == 'block':
+                    big = np.zeros((N, rk + 1, rk + 2))
+                    big[:, :rk, :rk] = data
+                    udata = big[:, :rk, :rk]
+                else:
+                    udata = np.copy(data)
+                if lay != 'C':
+                    ctx.probe('ma_data_layout_' + lay)
+                M = lib('MatrixArray()', pp.MatrixArray, length=N, rank=rk, data=udata, space=getattr(pp.Space, op['space']), types=types)
                 space = op['space']
                 cur = np.copy(data)
                 for t in op['seq']:
